@@ -937,14 +937,17 @@ func (s *State) evalForInteger(fe *ast.ForExpression, start *int64, end int64, n
 	newBody = fe.Body
 	if name != "" && !s.NoReg {
 		var ok bool
-		register, newBody, ok = setupRegister(s.env, name, int64(startValue), fe.Body)
-		if !ok {
-			return s.Errorf("for loop register %s shouldn't be modified inside the loop", name)
+		env := s.env
+		register, newBody, ok = setupRegister(env, name, int64(startValue), fe.Body)
+		if ok {
+			ptr = register.Ptr()
+			// Give the register back on every way out of the loop (break, return, error, panic), not only at its normal end.
+			defer env.ReleaseRegister(register)
 		}
-		ptr = register.Ptr()
+		// else: no register left, or the body modifies/captures the variable: use a plain variable like in NoReg mode.
 	}
 	for i := startValue; i < endValue; i++ {
-		if s.NoReg && name != "" {
+		if ptr == nil && name != "" {
 			s.env.Set(name, object.Integer{Value: int64(i)})
 		}
 		if ptr != nil {
@@ -969,9 +972,6 @@ func (s *State) evalForInteger(fe *ast.ForExpression, start *int64, end int64, n
 		default:
 			lastEval = nextEval
 		}
-	}
-	if ptr != nil {
-		s.env.ReleaseRegister(register)
 	}
 	return lastEval
 }
